@@ -11,17 +11,18 @@ ParsedTexts == { << Items(t), MapClassify(Split(t)) >> : t \in Texts }
 ParsedByLen == [k \in 0..(2 * MaxTextLines) |-> { p \in ParsedTexts : Len(p[1]) = k }]
 ParseMC(p) == lines' = lines \o p[1] /\ model' = DParse(model, p[2])
 ASSUME \A p \in ParsedTexts : p[1] = p[2] /\ Len(p[1]) <= 2 * MaxTextLines
-MCParse == \E k \in 1..(MaxLines - Len(lines)) : k <= 2 * MaxTextLines /\ \E p \in ParsedByLen[k] : ParseMC(p)
+Deeper == TLCGet("level") <= MaxDepth
+MCParse == Deeper /\ \E k \in 1..(MaxLines - Len(lines)) : k <= 2 * MaxTextLines /\ \E p \in ParsedByLen[k] : ParseMC(p)
 \* one named action per branch of ini_val_set, so that -coverage shows that each is taken
-MCSetOn(path) == /\ \E s \in Sections, n \in Names, v \in Values :
+MCSetOn(path) == /\ Deeper
+                 /\ \E s \in Sections, n \in Names, v \in Values :
                       SetPath(lines, s, n, v, RepairedFind) = path /\ Set(s, n, v)
                  /\ Len(lines') <= MaxLines
 MCSetNewSect == MCSetOn("newsect")
 MCSetInsert  == MCSetOn("insert")
 MCSetInPlace == MCSetOn("inplace")
 MCSetRealloc == MCSetOn("realloc")
-MCNext == /\ TLCGet("level") <= MaxDepth
-          /\ (MCParse \/ MCSetNewSect \/ MCSetInsert \/ MCSetInPlace \/ MCSetRealloc)
+MCNext == MCParse \/ MCSetNewSect \/ MCSetInsert \/ MCSetInPlace \/ MCSetRealloc
 MCSpec == MCInit /\ [][MCNext]_vars
 
 Inv_LookupS   == LookupIsLastWriteS(Sections, Names)
